@@ -10,7 +10,7 @@ from props import _delta as D
 
 ID = "C07"
 THEOREMS = [
-    "C07_each_once", "C07_base_before_delta", "C07_resolves", "C07_new_deltas_ok", "C07_fuel_sufficient",
+    "C07_each_once", "C07_base_before_delta", "C07_resolves", "C07_new_deltas_ok", "C07_acyclic_keeps_deltas", "C07_fuel_sufficient",
     "C07_entry_head_roundtrip", "C07_ofs_roundtrip",
 ]
 MODEL_FILES = ["PackEnc.v"]
@@ -165,8 +165,8 @@ class Graph(Suite):
     name = "graph"
     go_cmd = "c07"
     coq_imports = "From GoGit Require Import Model.PackEnc."
-    quick_n = 90
-    thorough_n = 1500
+    quick_n = 80
+    thorough_n = 700
     coq_chunk = 60
 
     def gen(self, rng, n, tier):
@@ -287,8 +287,8 @@ class Select(Suite):
     name = "select"
     go_cmd = "c07"
     coq_imports = "From GoGit Require Import Model.PackEnc."
-    quick_n = 70
-    thorough_n = 1200
+    quick_n = 60
+    thorough_n = 400
     coq_chunk = 40
 
     def __init__(self):
